@@ -2173,8 +2173,16 @@ func forwardedResult(c *ssa.Call, k, depth int) (string, bool) {
 	out, n := "", 0
 	bindCall(c, g, func() {
 		for _, r := range returnsOf(g) {
-			if ei >= len(r.Results) || !isNilConst(r.Results[ei]) {
-				continue // a failing return: the value that comes with it is not used by a caller that tests the error
+			if ei >= len(r.Results) {
+				continue
+			}
+			if !isNilConst(r.Results[ei]) {
+				// `return f(x)`: the pair of one call handed on as it is forwards that call's value
+				ee, isE := r.Results[ei].(*ssa.Extract)
+				ek, isK := r.Results[k].(*ssa.Extract)
+				if !isE || !isK || ee.Tuple != ek.Tuple {
+					continue // a failing return: the value that comes with it is not used by a caller that tests the error
+				}
 			}
 			d := descD(r.Results[k], depth+2)
 			if n == 0 || d == out {
